@@ -10,3 +10,4 @@ pub mod codec;
 pub mod typed;
 pub mod frame;
 pub mod c02;
+pub mod c11;
